@@ -46,6 +46,7 @@ class Func:
     _parents: dict | None = None
     _cfg: object = None
     _canon: object = None
+    _local_names_cache: object = None
 
     @property
     def key(self) -> str:
@@ -235,6 +236,11 @@ class Repo:
         return list(self.functions.values())
 
     def sd_methods(self) -> dict[str, Func]:
+        if "_sdm" not in self.__dict__:
+            self._sdm = self._sd_methods()
+        return self._sdm
+
+    def _sd_methods(self) -> dict[str, Func]:
         return {
             f.name: f
             for f in self.functions.values()
@@ -258,6 +264,13 @@ class Repo:
 
     def resolve_call(self, f: Func, call: ast.Call) -> str | None:
         """Return the key of the repo function called, 'ext:<dotted>' for an external call, or None."""
+        memo = self.__dict__.setdefault("_rc_memo", {})
+        k = (f.key, id(call))
+        if k not in memo:
+            memo[k] = self._resolve_call(f, call)
+        return memo[k]
+
+    def _resolve_call(self, f: Func, call: ast.Call) -> str | None:
         fn = call.func
         m = f.module
         if isinstance(fn, ast.Name):
@@ -318,14 +331,18 @@ class Repo:
         return k if k in self.functions else f"ext:{cls}"
 
     def _closure_alias(self, f: Func, name: str) -> str | None:
-        tgts = set()
-        for n in own_walk(f.node):
-            if isinstance(n, ast.Assign) and len(n.targets) == 1 and isinstance(n.targets[0], ast.Name) \
-                    and n.targets[0].id == name and isinstance(n.value, ast.Name):
-                k = f"{f.module.name}:{f.qualname}.{n.value.id}"
-                if k in self.functions:
-                    tgts.add(k)
-        return tgts.pop() if len(tgts) == 1 else None
+        memo = self.__dict__.setdefault("_ca_memo", {})
+        if f.key not in memo:
+            table: dict[str, set[str]] = {}
+            for n in own_walk(f.node):
+                if isinstance(n, ast.Assign) and len(n.targets) == 1 and isinstance(n.targets[0], ast.Name) \
+                        and isinstance(n.value, ast.Name):
+                    k = f"{f.module.name}:{f.qualname}.{n.value.id}"
+                    if k in self.functions:
+                        table.setdefault(n.targets[0].id, set()).add(k)
+            memo[f.key] = table
+        tgts = memo[f.key].get(name, set())
+        return next(iter(tgts)) if len(tgts) == 1 else None
 
     def calls(self, f: Func) -> list[tuple[ast.Call, str | None]]:
         out = []
@@ -392,6 +409,17 @@ def _dotted(n: ast.AST) -> str | None:
 
 
 def _local_names(f: Func) -> set[str]:
+    c = getattr(f, "_local_names_cache", None)
+    if c is None:
+        c = _local_names_uncached(f)
+        try:
+            f._local_names_cache = c
+        except AttributeError:
+            pass
+    return c
+
+
+def _local_names_uncached(f: Func) -> set[str]:
     names = set(f.params())
     for n in own_walk(f.node):
         if isinstance(n, ast.Name) and isinstance(n.ctx, ast.Store):
